@@ -75,4 +75,6 @@ def run(index, tier="quick", seed=0) -> Result:
             res.bad("DEG", k, where, what)
     if n < 4:
         raise AnalysisError("fewer than 4 implementations")
+    from ..parallel import report as _copy1
+    _copy1(res, index, lambda f: f['top'] in ('distance_to_surface', '_get_outward_unit_normal'))
     return res
